@@ -6,6 +6,7 @@ import faulthandler
 import importlib
 import json
 import os
+import signal
 import sys
 import time
 import traceback
@@ -42,6 +43,14 @@ def get_prop(pid):
     return traced_props.REGISTRY[pid]
 
 
+class CaseTimeout(BaseException):
+    """A single case exceeded its wall cap (machine under load, or an unusually expensive configuration)."""
+
+
+def _on_alarm(signum, frame):
+    raise CaseTimeout()
+
+
 def main(argv=None):
     ap = argparse.ArgumentParser()
     ap.add_argument("--prop")
@@ -55,6 +64,7 @@ def main(argv=None):
     ap.add_argument("--offset", type=int, default=0)
     ap.add_argument("--seed-tag", default=None)
     ap.add_argument("--corpus", action="store_true")
+    ap.add_argument("--case-cap", type=float, default=900.0)
     a = ap.parse_args(argv)
     faulthandler.enable()
     from . import core
@@ -108,16 +118,27 @@ def main(argv=None):
                 out.write(dumps(dict(truncated=True, at=idx)) + "\n")
                 break
             seed = core.H(a.base_seed, a.prop, a.seed_tag or mode, idx + a.offset)
-            faulthandler.dump_traceback_later(600, exit=True)
+            faulthandler.dump_traceback_later(3 * a.case_cap, exit=True)      # hard backstop
+            signal.signal(signal.SIGALRM, _on_alarm)
+            signal.setitimer(signal.ITIMER_REAL, a.case_cap)
             t0 = time.time()
             try:
                 rec = prop.run_case(idx + a.offset, seed, a.tier, mode)
+            except CaseTimeout:
+                # not a verdict about the code under test: reported as unfinished in the evidence
+                from . import runner as _runner
+                _runner.abandon_call()
+                rec = dict(sig=None, nontrivial=False, findings=[], probes={}, faults={},
+                           skips={"unfinished_case_wall_cap": 1}, sample=None, events=0, sim_runs=0, harness=[],
+                           unfinished=True)
             except Exception:
                 rec = dict(sig=None, nontrivial=False, findings=[], probes={}, faults={}, skips={},
                            sample=None, events=0, sim_runs=0,
                            harness=[f"run_case crashed: {traceback.format_exc()[-1500:]}"])
+            signal.setitimer(signal.ITIMER_REAL, 0)
             faulthandler.cancel_dump_traceback_later()
             rec["idx"] = idx + a.offset
+            rec["stripe"] = a.stripe
             rec["seed"] = seed
             rec["mode"] = mode
             rec["wall"] = time.time() - t0
